@@ -120,19 +120,33 @@ Proof.
   - apply nv_nil.
 Qed.
 
-Lemma nv_struct : forall fx x pk idx, NV (val_struct fx pk idx x).
+Lemma nv_qwrap : forall q n r sub, NV r -> NV sub -> NV (qwrap q n r sub).
+Proof. intros q n r sub Hr Hs. unfold qwrap. destruct (q && is_qualifier n); [destruct r|]; assumption. Qed.
+
+Lemma nv_struct : forall q fx x pk idx, NV (val_struct_q q fx pk idx x).
 Proof.
-  intro fx. induction x as [ns n attrs kids IH|s|s] using xml_ind2; intros pk idx; cbn [val_struct]; try apply nv_nil.
+  intros q fx. induction x as [ns n attrs kids IH|s|s] using xml_ind2; intros pk idx; cbn [val_struct_q]; try apply nv_nil.
   destruct (negb (ns =? MATHML_NS)%string); [apply nv_nil|].
-  apply nv_node.
-  generalize 0 as i. generalize (mkids kids) as mk.
-  induction IH as [|k r Hk _ IHr]; intros mk i; [apply nv_nil|].
-  destruct (is_mathml k); [apply nv_app; [apply Hk|apply IHr]|apply IHr].
+  assert (Hsub : forall mk i, NV ((fix go (ks : list xml) (i : nat) {struct ks} : list rule :=
+                    match ks with
+                    | [] => []
+                    | k :: r => if is_mathml k then val_struct_q q fx mk i k ++ go r (S i) else go r i
+                    end) kids i)).
+  { induction IH as [|k r Hk _ IHr]; intros mk i; [apply nv_nil|].
+    destruct (is_mathml k); [apply nv_app; [apply Hk|apply IHr]|apply IHr]. }
+  apply nv_qwrap; [|apply Hsub].
+  apply nv_node. apply Hsub.
 Qed.
 
-Lemma nv_struct_kids : forall fx ks mk i, NV (val_struct_kids fx mk ks i).
+Lemma nv_struct_old_unused : True.
 Proof.
-  intro fx. induction ks as [|k r IH]; intros mk i; cbn; [apply nv_nil|].
+  assert (H : True) by exact I.
+  exact H.
+Qed.
+
+Lemma nv_struct_kids : forall q fx ks mk i, NV (val_struct_kids_q q fx mk ks i).
+Proof.
+  intros q fx. induction ks as [|k r IH]; intros mk i; cbn; [apply nv_nil|].
   destruct (is_mathml k); [apply nv_app; [apply nv_struct|apply IH]|apply IH].
 Qed.
 
@@ -170,9 +184,9 @@ Proof.
 Qed.
 
 (** The validator's own three passes never call through a null handle, whatever the tree. *)
-Theorem val_null_safe : forall fx vars units root, ~ In V_NULL_DEREF (val_math_env_gen fx vars units root).
+Theorem val_null_safe : forall q fx vars units root, ~ In V_NULL_DEREF (val_math_env_gen2 q fx vars units root).
 Proof.
-  intros fx vars units root. unfold val_math_env_gen.
+  intros q fx vars units root. unfold val_math_env_gen2.
   destruct (negb (is_mathml_el "math" root)); [apply nv_one; discriminate|].
   apply nv_app; [|apply nv_app; [apply nv_cicn|apply nv_struct_kids]].
   induction (kids_of root) as [|k r IH]; [apply nv_nil|apply nv_app; [apply nv_supported|exact IH]].
@@ -212,8 +226,10 @@ Definition w_cn_sep_in_degree : xml :=
   x_eq (m_apply "root" [m_el "degree" [Elem MATHML_NS "cn" cn_units [m_leaf "sep"]]; m_ci "y"]).
 
 (** the code as it is now ([fx] = false) *)
-Definition val_now (root : xml) : list rule := val_math_env_gen false std_vars std_units root.
-Definition val_fixed (root : xml) : list rule := val_math_env_gen true std_vars std_units root.
+Definition val_now (root : xml) : list rule := val_math_env_gen2 false false std_vars std_units root.
+Definition val_fixed (root : xml) : list rule := val_math_env_gen2 false true std_vars std_units root.
+(** with the repair of C04 (the arity pass descends into degree / logbase / bvar) *)
+Definition val_qfixed (root : xml) : list rule := val_math_env_gen2 true false std_vars std_units root.
 Definition gap (root : xml) (s : site) : Prop :=
   val_now root = [] /\ ana_math root = Crash s.
 
@@ -237,6 +253,12 @@ Lemma gap_cn_sep_in_degree : gap w_cn_sep_in_degree S_CnSepChain.        Proof. 
 Lemma arity_fix_closes :
   val_fixed w_min_no_operand <> [] /\ val_fixed w_max_no_operand <> [] /\ val_fixed w_rem_no_operand <> []
   /\ val_fixed w_min_one_operand <> [] /\ val_fixed w_not_equation_min <> [].
+Proof. repeat split; vm_compute; discriminate. Qed.
+
+(** what fixes/C04-mathml-qualifier-children.diff closes: the witnesses that hide below a qualifier *)
+Lemma qualifier_fix_closes :
+  val_qfixed w_unvalidated_degree <> [] /\ val_qfixed w_ci_empty_in_bvar <> []
+  /\ val_qfixed w_cn_empty_in_degree <> [] /\ val_qfixed w_cn_sep_in_degree <> [].
 Proof. repeat split; vm_compute; discriminate. Qed.
 
 Lemma gap_is_refutation : forall root s, gap root s -> val_now root = [] /\ ana root = None.
